@@ -76,10 +76,12 @@ def _serialize_element(
     if not schema.get("properties", True):
         del schema["properties"]
     if "properties" in schema:
-        schema["required"] = [
-            prop.source if prop.source is not None else name
+        schema["properties"] = {
+            prop.source if prop.source is not None else name: prop
             for name, prop in schema["properties"].items()
-            if prop.required
+        }
+        schema["required"] = [
+            name for name, prop in schema["properties"].items() if prop.required
         ]
     if not schema.get("required", True):
         del schema["required"]
